@@ -72,8 +72,10 @@ func govcCases() []govcCase {
 	}{{"true", true}, {"false", false}, {"1", true}, {"0", false}} {
 		cs = append(cs, govcCase{"boolean", "", b.t, b.v})
 	}
-	// (what is a boolean literal is decided by swag.ConvertBool, a library function that never reports an error: every
-	// text that is not one of its spellings of true is false. "maybe" is therefore accepted as false; left alone, not checked.)
+	// what is a boolean literal is decided by swag.ConvertBool, a library function that never reports an error: every
+	// text that is not one of its spellings of true is false. A text such as "maybe" is therefore bound as false instead
+	// of being refused: reported as a finding (see findingText below), not as a failure of this harness.
+	cs = append(cs, govcCase{"boolean", "", "maybe", govcFinding("boolean-literal")})
 	for _, s := range []string{"x", "a b", "é", "a,b", "%41", "a+b", "\"q\"", "0", "null"} {
 		cs = append(cs, govcCase{"string", "", s, s})
 	}
@@ -81,6 +83,11 @@ func govcCases() []govcCase {
 	cs = append(cs, govcCase{"string", "byte", "aGVsbG8=", "aGVsbG8="}, govcCase{"string", "byte", "***", nil})
 	return cs
 }
+
+// govcFinding marks a case whose acceptance is a recorded finding rather than a harness failure.
+type govcFinding string
+
+var govcFindingsSeen = map[string]string{}
 
 func govcEqual(got, want interface{}) bool {
 	if s, ok := want.(string); ok {
@@ -129,6 +136,12 @@ func TestGovcStandInBinderValues(t *testing.T) {
 					data := map[string]interface{}{}
 					err := binder.Bind(req, rp, nil, &data)
 					checks++
+					if key, isFinding := c.want.(govcFinding); isFinding {
+						if err == nil {
+							govcFindingsSeen[string(key)] = fmt.Sprintf("%s: accepted as %#v, want an error (422)", desc, data[name])
+						}
+						return
+					}
 					if c.want == nil {
 						if err == nil {
 							t.Fatalf("GOVC-STANDIN-FAIL %s: accepted as %#v, want an error", desc, data[name])
@@ -252,6 +265,9 @@ func TestGovcStandInBinderValues(t *testing.T) {
 				}
 			}()
 		}
+	}
+	for key, what := range govcFindingsSeen {
+		fmt.Printf("GOVC-STANDIN-FINDING obligation=standin.binder-values.%s %s\n", key, what)
 	}
 	_ = os.Getenv
 	fmt.Printf("GOVC-STANDIN name=binder-values declarations=%d checks=%d\n", len(cases), checks)
